@@ -3,11 +3,11 @@ CONSTANTS
   MaxWorkers = 2
   Runtimes = {"threaded", "tokio"}
   MaxReq = 1
-  Kinds = {"close", "keep", "ws"}
+  Kinds = {"close", "keep"}
   SigTwice = FALSE
   Dev = {}
-  Faults = {}
+  Faults = {"nofd"}
 SPECIFICATION Spec
 INVARIANTS TypeOK Inv_PortFree Inv_ServingBefore Inv_NoTruncation Inv_Owned Inv_DispatchedKept Inv_WakeUnserved
-PROPERTIES Live_RunReturns Live_Accepts
+PROPERTIES Live_RunReturns
 CHECK_DEADLOCK FALSE
